@@ -1,5 +1,5 @@
 #!/bin/bash
-# seedmatrix.sh <parallel>: every seeded change x every check (quick, VERIF_SEED=1); results in /tmp/seedmatrix/<seed>.txt
+# seedmatrix.sh <parallel> [pattern]: seeded changes matching pattern x every check (quick, VERIF_SEED=1); results in /tmp/seedmatrix/<seed>.txt
 mkdir -p /tmp/seedmatrix
 checks=$(python3 -c "import json;print(' '.join(c['property_id'] for c in json.load(open('/verif/MANIFEST.json'))['checks']))")
-ls /verif/seeded | xargs -P ${1:-2} -I{} sh -c "/verif/tools/seedtest.sh {} quick $checks > /tmp/seedmatrix/{}.txt 2>&1"
+ls /verif/seeded | grep -E "${2:-^C[0-9]+b?$}" | xargs -P ${1:-2} -I{} sh -c "/verif/tools/seedtest.sh {} quick $checks > /tmp/seedmatrix/{}.txt 2>&1"
